@@ -20,8 +20,6 @@ import (
 	"github.com/thanos-io/thanos/pkg/verifhook/vfkit"
 )
 
-const vfc03ReplicaLabel = "k"
-
 // vfc03Scenario is one set of scripted stores.
 type vfc03Scenario struct {
 	Strip   bool   // request carries WithoutReplicaLabels=[k]
@@ -44,18 +42,6 @@ type vfc03StoreSpec struct {
 type vfc03Want struct {
 	Lset   labels.Labels
 	Chunks map[string]vfc03Chunk // chunk key -> spec
-}
-
-func vfc03Lset(a, k, z string) labels.Labels {
-	var kv []string
-	kv = append(kv, "a", a)
-	if k != "" {
-		kv = append(kv, vfc03ReplicaLabel, k)
-	}
-	if z != "" {
-		kv = append(kv, "z", z)
-	}
-	return labels.FromStrings(kv...)
 }
 
 func vfc03Gen(rng *rand.Rand) *vfc03Scenario {
